@@ -44,6 +44,13 @@ def slice_parts(L, e):
             if n.endswith('RangeFull'):
                 return (base, off, ln)
         return (base, None, None)
+    if e[0] == 'field' and e[2] in ('0', '1') and e[1][0] == 'call' and isinstance(e[1][1], str) and e[1][1].endswith(('<impl [T]>::split_at', '<impl [T]>::split_at_mut')):
+        # s.split_at(mid) = (&s[..mid], &s[mid..])
+        base, off, ln = slice_parts(L, e[1][2][0])
+        mid = L.lin(e[1][2][1])
+        if mid is None or off is None:
+            return (base, None, None)
+        return (base, off, mid) if e[2] == '0' else (base, off + mid, (ln - mid) if ln is not None else None)
     return (e, Lin.const(0), L.slice_len(e))
 
 
